@@ -2,6 +2,9 @@ use std::time::Duration;
 
 use ccmon::{mon_hist, real, report::Stats, wire};
 
+#[global_allocator]
+static GLOBAL: ccmon::alloc::Counting = ccmon::alloc::Counting;
+
 fn arg(args: &[String], name: &str) -> Option<String> {
     args.iter().position(|a| a == name).and_then(|i| args.get(i + 1).cloned())
 }
@@ -65,6 +68,34 @@ fn main() {
         "c08" => {
             let stats = ccmon::mon_c08::run(&tier, seed);
             finish("C08", stats, out, start.elapsed().as_secs_f64());
+        }
+        "c14" => {
+            let replay = arg(&args, "--replay").and_then(|p| std::fs::read_to_string(p).ok()).and_then(|t| serde_json::from_str(&t).ok());
+            let scratch = std::path::PathBuf::from(arg(&args, "--scratch").unwrap_or_else(|| format!("/verif/.build/out/c14-{tier}-{}", &wire::CONFIG[..1])));
+            let _ = std::fs::remove_dir_all(&scratch);
+            let stats = ccmon::mon_c14::run(&tier, seed, threads, &scratch, replay);
+            let _ = std::fs::remove_dir_all(&scratch);
+            finish("C14", stats, out, start.elapsed().as_secs_f64());
+        }
+        "c14-worker" => {
+            ccmon::mon_c14::worker(
+                &arg(&args, "--bases").unwrap(),
+                num(&args, "--shard", 0) as usize,
+                num(&args, "--nshards", 1) as usize,
+                num(&args, "--from", 0),
+                seed,
+                tier == "thorough",
+                &arg(&args, "--progress").unwrap(),
+                &arg(&args, "--out").unwrap(),
+            );
+        }
+        "c10fp" => {
+            let stats = ccmon::mon_c10fp::run(&tier, seed);
+            finish("C10", stats, out, start.elapsed().as_secs_f64());
+        }
+        "c19" => {
+            let stats = ccmon::mon_c19::run(&tier, seed, num(&args, "--budget-s", 0), out.as_deref());
+            finish("C19", stats, out, start.elapsed().as_secs_f64());
         }
         "c12" => {
             let stats = ccmon::mon_c12::run(&tier, seed);
